@@ -84,6 +84,11 @@ def explicit_cases(tier):
     out.append(("MatrixMult complex-diagonal 3x3", pylops.MatrixMult(Dg, dtype=Dg.dtype), Dg, r))
     T = np.array([[3.0, 1, 0], [1, 2, 1], [0, 1, 4]]) * 2.0 ** -33
     out.append(("MatrixMult tiny entries 3x3", pylops.MatrixMult(T), T, r))
+    import scipy.sparse as sps
+    for cplx in (False, True):
+        for fmt in ("csr", "csc"):
+            A = np.array([[2.0, 0, 1, 0], [0, 3, 0, 0], [1, 0, 4, -1], [0, 2, 0, 5]]) * ((1 + 1j) if cplx else 1) + (np.diag([0, 1j, 0, 0]) if cplx else 0)
+            out.append(("MatrixMult sparse %s %s 4x4" % (fmt, "C" if cplx else "R"), pylops.MatrixMult(getattr(sps, fmt + "_matrix")(A), dtype=A.dtype), A, r))
     return out
 
 
@@ -103,12 +108,17 @@ def _views(op):
 def _explicit_extras(rec, op, C, r, cplx):
     """Quantities derived from the explicit view: trace, eigs, '/'."""
     m, n = op.shape
-    if not (op.explicit and hasattr(op, "A") and isinstance(op.A, np.ndarray)):
+    if not (op.explicit and hasattr(op, "A")):
+        return
+    sparse = hasattr(op.A, "toarray")
+    if not (isinstance(op.A, np.ndarray) or (sparse and m == n)):      # sparse explicit matrices: square only (spsolve)
         return
     if np.linalg.matrix_rank(C, tol=1e-14 * np.abs(C).max()) < min(m, n) or np.linalg.cond(C) > 1e3:
         return
     rec["cplx"] = True          # eigenvalues of real matrices may be complex: evaluate over Gaussian rationals
-    if m == n:
+    if sparse:
+        rec["trace"] = complex(op.trace(method="explicit"))
+    elif m == n:
         rec["trace"] = complex(op.trace(method="explicit"))
         rec["eigs"] = (np.asarray(op.eigs(), dtype=complex), C)
     else:
